@@ -63,7 +63,9 @@ class ModelInner:
 
     # ------------------------------------------------------------------ helpers
     def _tick(self):
-        self.clock += 1
+        # strictly increasing, in steps below one second (as consecutive writes on a real disk are): several mutations share the same
+        # whole second, so code that coarsens the timestamp is exposed
+        self.clock += 0.25
         return float(self.clock)
 
     def _newino(self):
@@ -477,6 +479,24 @@ class ModelInner:
         self._p_link(a, b)
 
     def reflink(self, a, b):
+        # dvc_objects.fs.system.reflink on Linux: open(dst, O_WRONLY|O_CREAT|O_TRUNC) in place, ioctl(FICLONE) - which fails on
+        # filesystems without reflink support, as on this sandbox's - then unlink(dst).  The transient empty file under the final
+        # name is observable by a crash (C15) or another writer (C16), so it is modelled as two primitives.
+        self.read(a)
+        b = self._n(b)
+        self._need_parent(b)
+        if b in self.dirs:
+            raise IsADirectoryError(errno.EISDIR, "Is a directory", b)
+        if self._mut("reflink-create", b):
+            if b in self.links:
+                b = self._resolve(b)
+            if b in self.files:
+                self.files[b].data = b""
+                self.files[b].mtime = self._tick()
+            else:
+                self.files[b] = Ino(self._newino(), b"", 0o666 & ~self.umask, self._tick())
+        if self._mut("reflink-unlink", b):
+            self.files.pop(b).nlink -= 1
         raise OSError(errno.ENOTSUP, "reflink is not supported")
 
     def chmod(self, p, mode):
